@@ -8,7 +8,18 @@ Transcription onto the cursor model contracts/C07/curmodel.rs (mechanical, every
   T4 `Ok(out)`                                  -> `Some(out)`; result type MResult<Vec<DecodedInstr>> -> Option<Vec<DecodedInstr>>
   T5 `Vec::with_capacity(E)`                    -> `vec_u32_with_capacity(E, Ghost(cur.buf@.len() as int))`   (allocation-bound obligation)
   T6 `for _ in`                                 -> `for i_ in`
-`OpCode`, `OpCode::from_u8` and `DecodedInstr` are copied verbatim (derive attributes dropped)."""
+`OpCode`, `OpCode::from_u8` and `DecodedInstr` are copied verbatim (derive attributes dropped).
+
+The same treatment for the rest of the load path (`load_program_from_reader`, `parse_const_entries`, `section_in_file`):
+  L2 `r.seek(SeekFrom::Start(E))?`              -> `r.seek_start(E)?`
+  L4 `vec![0u8; E]` / `v.resize(E, 0)`           -> `vec_u8_zeroed(E, Ghost(total_len as int))`   (allocation-bound obligation; the header
+                                                   buffer of constant size -> `vec_u8_fixed()`)
+  L5 `Cursor::new(&B[..])`                       -> `Cur::of(&B)`
+  L6 `ByteCodeHeader::read_from(&mut c)?`        -> `read_header(&mut c)?`   (arbitrary field values); `validate_magic(b"MECH")` -> arbitrary bool
+  L9 `a.saturating_sub(b)`, `a.checked_add(b)`, `a.min(b)` -> model functions with their arithmetic specification
+  L11 `String::from_utf8(b).map_err(..)?`        -> `string_from_utf8(b)?`
+  L14 `Ok(ParsedProgram {..})`                   -> `Some(())`
+  `TypeSection` is reduced to its `entries` field; `ByteCodeHeader`, `TypeTag`, `TypeTag::from_u16`, `TypeEntry`, `ParsedConstEntry` verbatim."""
 import os, re, sys
 sys.path.insert(0, os.path.join(os.path.dirname(os.path.abspath(__file__)), "..", "tools"))
 import vlib
@@ -74,6 +85,123 @@ def decode_fn(prog):
             "{\n  let ghost buf0 = cur.buf@;\n" + b.strip()[1:].rstrip()[:-1] + "\n}\n")
 
 
+def _struct(text, name):
+    m = find_code(text, r"pub\s+struct\s+%s\s*\{" % name)
+    if not m:
+        raise AnchorLost("struct %s not found" % name)
+    e = match_brace(text, m.end() - 1)
+    return re.sub(r"//[^\n]*", "", text[m.start():e]) + "\n"
+
+
+def _common(b):
+    b = re.sub(r"//[^\n]*", "", b)
+    b = re.sub(r"\b(\w+)\.get_ref\(\)\.len\(\)", r"\1.len()", b)
+    b = re.sub(r"\b(\w+)\.read_(u8|u16|u32|u64)(?:::<LittleEndian>)?\(\)\?", r"\1.read_\2()?", b)
+    b = _strip_err_returns(b)
+    b = re.sub(r"\bfor\s+_\s+in\b", "for i_ in", b)
+    return b
+
+
+def parse_const_entries_fn(prog):
+    sig, body = extract_fn(prog, "parse_const_entries")
+    if not re.search(r"fn\s+parse_const_entries\s*\(\s*mut\s+cur\s*:\s*Cursor<&\[u8\]>\s*,\s*count\s*:\s*usize\s*\)\s*->\s*io::Result<Vec<ParsedConstEntry>>", sig):
+        raise AnchorLost("parse_const_entries signature changed")
+    b = _common(body)
+    b, n1 = re.subn(r"\bVec::with_capacity\((.*)\);", r"vec_entries_with_capacity(\1, Ghost(cur.buf@.len() as int));", b)
+    b = re.sub(r"\b(\w+)\.min\(([^;]*?)\)(?=,\s*Ghost)", r"min_usize(\1, \2)", b)
+    b, n2 = re.subn(r"\bOk\(out\)", "Some(out)", b)
+    if n1 != 1 or n2 != 1 or "Err(" in b:
+        raise AnchorLost("parse_const_entries no longer has the expected shape")
+    from units import vmat
+    b = vmat.inject(b, ["    invariant cur.buf@ == buf0,"], keyword=r"\bfor\b")
+    return ("fn parse_const_entries(mut cur: Cur, count: usize) -> (res: Option<Vec<ParsedConstEntry>>)\n{\n  let ghost buf0 = cur.buf@;\n"
+            + b.strip()[1:].rstrip()[:-1] + "\n}\n")
+
+
+def section_in_file_fn(prog):
+    sig, body = extract_fn(prog, "section_in_file")
+    b = re.sub(r"\b(\w+)\.checked_add\((\w+)\)", r"checked_add_u64(\1, \2)", body)
+    return ("fn section_in_file(off: u64, len: u64, total_len: u64) -> (r: bool)\n  ensures r == (off + len <= total_len),\n" + b + "\n")
+
+
+def loader_fn(prog):
+    """load_program_from_reader onto the cursor model (rules L1-L14 in the module docstring)"""
+    sig, body = extract_fn(prog, "load_program_from_reader")
+    if not re.search(r"fn\s+load_program_from_reader<R:\s*Read\s*\+\s*Seek>\(r:\s*&mut\s+R,\s*total_len:\s*u64\)\s*->\s*MResult<ParsedProgram>", sig):
+        raise AnchorLost("load_program_from_reader signature changed")
+    b = _common(body)
+    b, a1 = re.subn(r"\b(\w+)\.seek\(SeekFrom::Start\(([^;]*?)\)\)\?;", r"\1.seek_start(\2)?;", b)
+    b = b.replace("vec![0u8; ByteCodeHeader::HEADER_SIZE]", "vec_u8_fixed()")
+    b, a2 = re.subn(r"\bvec!\[0u8;\s*([^\]]*?)\]", r"vec_u8_zeroed(\1, Ghost(total_len as int))", b)
+    b, a3 = re.subn(r"\b(\w+)\.resize\(([^;]*?),\s*0\);", r"\1 = vec_u8_zeroed(\2, Ghost(total_len as int));", b)
+    b = re.sub(r"\bvec!\[\]", "Vec::new()", b)
+    b, a4 = re.subn(r"\bCursor::new\(&(\w+)\[\.\.\]\)", r"Cur::of(&\1)", b)
+    b, a5 = re.subn(r"\bByteCodeHeader::read_from\(&mut\s+(\w+)\)\?", r"read_header(&mut \1)?", b)
+    b, a6 = re.subn(r'\bheader\.validate_magic\(b"MECH"\)', "header.validate_magic_mech()", b)
+    b = re.sub(r"\b([\w.]+)\.saturating_sub\(([^()]*)\)", r"sat_sub(\1, \2)", b)
+    # String::from_utf8(x).map_err(|_| ...)?
+    while True:
+        m = re.search(r"String::from_utf8\((\w+)\)\.map_err\(", b)
+        if not m:
+            break
+        e = match_brace(b, m.end() - 1, "(", ")")
+        k = e
+        while b[k] in " \t\r\n":
+            k += 1
+        if b[k] != "?":
+            raise AnchorLost("String::from_utf8(..).map_err(..) not followed by `?`")
+        b = b[:m.start()] + "string_from_utf8(%s)?" % m.group(1) + b[k + 1:]
+    b = re.sub(r"\bHashMap::new\(\)", "HashMap::<u64, _>::new()", b)
+    b = re.sub(r"\bHashSet::new\(\)", "HashSet::<u64>::new()", b)
+    # final value
+    m = re.search(r"\bOk\(ParsedProgram\s*\{", b)
+    if not m:
+        raise AnchorLost("final Ok(ParsedProgram {..}) not found")
+    e = match_brace(b, m.start() + 2, "(", ")")
+    b = b[:m.start()] + "Some(())" + b[e:]
+    if a1 < 5 or a2 < 4 or a4 < 3 or a5 != 1 or a6 != 1 or "Err(" in b or "MechError" in b:
+        raise AnchorLost("load_program_from_reader no longer has the expected shape (seek=%d vec=%d cursor=%d)" % (a1, a2, a4))
+    from units import vmat
+    loops = vlib.find_all_code(b, r"\b(while|for)\b")
+    kinds = [b[m.start():m.start() + 5].startswith("while") for m in loops]
+    if kinds != [False, False, False, True]:
+        raise AnchorLost("expected three for loops and one while loop, found %s" % kinds)
+    FR = "r.buf@ == file0, total_len == file0.len(),"
+    specs = ["      invariant " + FR,
+             "      invariant " + FR,
+             "      invariant " + FR + " cur.buf@ == symbols_bytes@,",
+             "      invariant " + FR + " cur.buf@ == dict_bytes@, dict_bytes@.len() <= total_len,\n      decreases cur.rem(),"]
+    b = vmat.inject(b, specs, keyword=r"\b(while|for)\b")
+    return ("fn load_program_from_reader(r: &mut Cur, total_len: u64) -> (res: Option<()>)\n  requires total_len == old(r).buf@.len(),\n{\n  let ghost file0 = r.buf@;\n"
+            + b.strip()[1:].rstrip()[:-1] + "\n}\n")
+
+
+def add_loader_unit(plan, prop, prog, sect, decode_items):
+    obs = {
+        "load_program_from_reader": plan.ob("%s.verus.load_program_from_reader.total_no_panic_bounded_alloc" % prop, "verus", "proved", functions=["load_program_from_reader", "section_in_file"],
+                                            what="for EVERY file content the loader terminates, has no arithmetic overflow / underflow, and every buffer it allocates (vec![0u8; n], resize) "
+                                                 "is at most as long as the file; its callees parse_const_entries and decode_instructions are used through their own contracts"),
+        "parse_const_entries": plan.ob("%s.verus.parse_const_entries.total_no_panic_bounded_alloc" % prop, "verus", "proved", functions=["parse_const_entries"],
+                                       what="for EVERY table content and count parse_const_entries terminates, does not overflow and reserves at most the table's own size"),
+    }
+    try:
+        m = find_code(sect, r"impl\s+TypeTag\s*\{")
+        blk = sect[m.start():match_brace(sect, m.end() - 1)]
+        tsig, tbody = extract_fn(blk, "from_u16")
+        items = list(decode_items[:-1])     # model, OpCode, DecodedInstr, decode_instructions (without its canary)
+        items += [_struct(sect, "ByteCodeHeader"), _enum(sect, "TypeTag"), "impl TypeTag {\n%s %s\n}\n" % (tsig.strip(), tbody), _struct(sect, "TypeEntry"),
+                  _struct(prog, "ParsedConstEntry"), section_in_file_fn(prog), parse_const_entries_fn(prog), loader_fn(prog),
+                  vlib.verus_canary("canary_loader", "x: u64", [])]
+        text = vlib.verus_file(items, prelude="use std::collections::HashMap;\nuse std::collections::HashSet;\n")
+        text = text.replace("verus! {\n", "verus! {\nbroadcast use vstd::std_specs::hash::group_hash_axioms;\n", 1)
+        u = vlib.VerusUnit("c07_loader", text, {"load_program_from_reader": obs["load_program_from_reader"].name, "parse_const_entries": obs["parse_const_entries"].name}, ["canary_loader"])
+        plan.verus.append(u)
+    except Exception as e:
+        for o in obs.values():
+            plan.anchor_errors.append((o.name, "%s: %s" % (type(e).__name__, e)))
+            o.status, o.detail = "undecided", "anchor lost: %s" % e
+
+
 def add_units(plan, prop="C07"):
     ob = plan.ob("%s.verus.decode_instructions.total_no_panic_bounded_alloc" % prop, "verus", "proved", functions=["decode_instructions"],
                  what="for EVERY byte sequence decode_instructions terminates (decreases: remaining bytes), has no arithmetic overflow / underflow or lossy cast, "
@@ -88,6 +216,7 @@ def add_units(plan, prop="C07"):
                  vlib.verus_canary("canary_decode", "x: u64", [])]
         u = vlib.VerusUnit("c07_decode_instructions", vlib.verus_file(items), {"decode_instructions": ob.name}, ["canary_decode"])
         plan.verus.append(u)
+        add_loader_unit(plan, prop, prog, sect, items)
         plan.dropped.append(__doc__.split("Transcription", 1)[1].strip())
         plan.assumptions.append("std::io::Cursor<&[u8]> and byteorder::ReadBytesExt behave as contracts/C07/curmodel.rs (a read succeeds iff enough bytes remain and advances the position; decoded values unspecified); usize is 64 bits")
     except Exception as e:
